@@ -1,10 +1,10 @@
 use std::str::FromStr;
 
 use emmylua_parser::{LuaAstNode, LuaAstToken, LuaBlock, LuaChunk, LuaDocTagDiagnostic};
-use rowan::TextRange;
+use rowan::{TextRange, TextSize};
 
 use crate::{
-    DiagnosticCode,
+    DiagnosticCode, LuaDocument,
     db_index::{DiagnosticAction, DiagnosticActionKind},
 };
 
@@ -27,15 +27,35 @@ pub fn analyze_diagnostic(
     Some(())
 }
 
+/// End of a scope whose last line is `line`: the start of the following line. When `line` is the last
+/// line of the document the scope ends one past the end of the text, so that the end-of-file position
+/// (where zero-width diagnostics such as "expect type" can sit) belongs to the last line.
+fn scope_end_of_line(document: &LuaDocument, line: usize) -> Option<TextSize> {
+    let line_count = document.get_line_count();
+    if line + 1 < line_count {
+        Some(document.get_line_range(line)?.end())
+    } else if line + 1 == line_count {
+        Some(TextSize::new(document.get_text().len() as u32 + 1))
+    } else {
+        None
+    }
+}
+
 fn analyze_diagnostic_disable(
     analyzer: &mut DocAnalyzer,
     diagnostic: LuaDocTagDiagnostic,
 ) -> Option<()> {
     let comment = analyzer.comment.clone();
     let owner_block = comment.ancestors::<LuaBlock>().next()?;
-    let owner_block_range = owner_block.get_range();
+    let mut owner_block_range = owner_block.get_range();
     let is_file_disable = owner_block.get_parent::<LuaChunk>().is_some();
     let file_id = analyzer.file_id;
+    let document = analyzer.get_db().get_vfs().get_document(&file_id)?;
+    let text_end = TextSize::new(document.get_text().len() as u32);
+    if owner_block_range.end() == text_end {
+        // a block that runs to the end of the document also covers the end-of-file position
+        owner_block_range = TextRange::new(owner_block_range.start(), text_end + TextSize::new(1));
+    }
 
     let diagnostic_index = analyzer.get_db().get_diagnostic_index_mut();
     if let Some(diagnostic_code_list) = diagnostic.get_code_list() {
@@ -78,8 +98,13 @@ fn analyze_diagnostic_disable_next_line(
     let file_id = analyzer.file_id;
     let document = analyzer.get_db().get_vfs().get_document(&file_id)?;
     let comment_end_line = document.get_line(comment_range.end())?;
-    let line_range = document.get_line_range(comment_end_line + 1)?;
-    let valid_range = TextRange::new(comment_range.start(), line_range.end());
+    // the line after the comment; the comment's own last line when the document ends there
+    let last_line = document.get_line_count().checked_sub(1)?;
+    let scope_line = (comment_end_line + 1).min(last_line);
+    let valid_range = TextRange::new(
+        comment_range.start(),
+        scope_end_of_line(&document, scope_line)?,
+    );
 
     let diagnostic_index = analyzer.get_db().get_diagnostic_index_mut();
     if let Some(diagnostic_code_list) = diagnostic.get_code_list() {
@@ -115,7 +140,10 @@ fn analyze_diagnostic_disable_line(
     let file_id = analyzer.file_id;
     let document = analyzer.get_db().get_vfs().get_document(&file_id)?;
     let comment_end_line = document.get_line(comment_range.end())?;
-    let valid_range = document.get_line_range(comment_end_line)?;
+    let valid_range = TextRange::new(
+        document.get_line_range(comment_end_line)?.start(),
+        scope_end_of_line(&document, comment_end_line)?,
+    );
 
     let diagnostic_index = analyzer.get_db().get_diagnostic_index_mut();
     if let Some(diagnostic_code_list) = diagnostic.get_code_list() {
